@@ -146,10 +146,11 @@ FieldsWellFormed(K) ==
 
 \* ---- typed getters (C04 / C05 / C15) ---------------------------------------------------
 \* first tag of type number id in walk order; the getter panics iff the walk panics first
-FindSpec(w, id) ==
-  LET i == FirstOfType(w, U32Bytes(id)) IN
+FindSpecT(w, typ4) ==
+  LET i == FirstOfType(w, typ4) IN
   IF i > 0 THEN [k |-> "found", it |-> w.items[i]]
   ELSE IF w.fin = "panic" THEN [k |-> "panic"] ELSE [k |-> "absent"]
+FindSpec(w, id) == FindSpecT(w, U32Bytes(id))
 
 \* what viewing walk item `it` as kind K must do:  "must" (a view), "panic", or "free" (either)
 ViewSpec(K, it) ==
